@@ -29,6 +29,7 @@ type SpecCtx struct {
 	oldEnv map[string]*Val
 	depth int
 	allocMark *Term
+	allocHi   *Term // at a call site of an allocating callee: one past what it may have allocated
 	inOld     bool
 	// calleeGhost is set while a callee's ensures are assumed at a call site: call counters,
 	// last arguments and last results named there belong to the callee's own execution (they
@@ -882,11 +883,17 @@ func (c *SpecCtx) call(e *ast.CallExpr) *Val {
 			return intV(v.Arr)
 		case "fresh":
 			v := c.eval(e.Args[0])
+			within := func(t *Term) *Val {
+				if c.allocMark != nil && c.allocHi != nil {
+					return boolV(And(Ge(t, c.allocMark), Lt(t, c.allocHi)))
+				}
+				return boolV(Ge(t, x.callAllocBase(c)))
+			}
 			switch v.K {
 			case kPtr:
-				return boolV(Ge(v.L.Base, x.callAllocBase(c)))
+				return within(v.L.Base)
 			case kSlice:
-				return boolV(Ge(v.Arr, x.callAllocBase(c)))
+				return within(v.Arr)
 			}
 			c.fail("fresh() of non-reference")
 		}
